@@ -694,7 +694,72 @@ def rule_nested_validated_(ctx: Ctx, rep: Report) -> None:
     rule_nested_validated(ctx, rep, "C19.nested_validated", ('btclib.',), 25)
 
 
+def rule_lookahead_bounded(ctx: Ctx, rep: Report) -> None:
+    """C19.lookahead_bounded: the miniscript decoder reads a script backwards through
+    `self._op_code(k)` and `self.entries[self.pos + k]`, which index a list: a
+    read k entries ahead (k >= 1) is made only where `self._remaining()` is
+    known to exceed k -- a fact `_remaining() >= N` (or the failed test
+    `_remaining() < N`) with N >= k + 1 on every path to it. One less and a
+    script cut short by one entry leaves `from_script` as an IndexError."""
+    import re as _re
+    rule = "C19.lookahead_bounded"
+    n = 0
+    for q, fi in sorted(ctx.prog.functions.items()):
+        if "._Decoder." not in q:
+            continue
+        g = None
+        for x in own_nodes(fi.node):
+            k = None
+            if isinstance(x, ast.Call) and isinstance(x.func, ast.Attribute) and x.func.attr == "_op_code" and x.args:
+                k = ctx.fold(x.args[0], fi.module)
+            elif isinstance(x, ast.Subscript) and str(norm(x.value)) == "self.entries" and isinstance(x.slice, ast.BinOp) and isinstance(x.slice.op, ast.Add) and str(norm(x.slice.left)) == "self.pos":
+                k = ctx.fold(x.slice.right, fi.module)
+            if not isinstance(k, int) or k < 1:
+                continue
+            n += 1
+            g = g or ctx.cfg(fi)
+            best = 0
+            for t, pol in g.facts_at_ast(x):
+                m = _re.fullmatch(r"self\._remaining\(\)\s*(<|>=|>|<=)\s*(\d+)(\s*\+\s*\w+)?", str(t).strip())
+                if not m:
+                    continue
+                op, N = m.group(1), int(m.group(2))
+                if (op == ">=" and pol) or (op == "<" and not pol):
+                    best = max(best, N)
+                elif (op == ">" and pol) or (op == "<=" and not pol):
+                    best = max(best, N + 1)
+            rep.ob(rule, f"{q}:{norm(x)}", best >= k + 1, fi.where(x), f"read under _remaining() >= {best}" if best >= k + 1 else
+                   f"`{norm(x)}` reads {k} entries ahead where only _remaining() >= {best} is known: a script one entry short is an IndexError out of from_script")
+    rep.floor(rule, 10)
+
+
+def rule_positions_checked_before_use(ctx: Ctx, rep: Report) -> None:
+    """C19.positions_checked_before_use: `reconstruct` places each prefilled
+    transaction at the position the message states, in a list sized by the
+    message's own count: the positions are the peer's, and are held to the
+    list (`_assert_positions`, or `assert_valid`) before the first store -- a
+    message parsed with check_validity=False and a position past the end is an
+    IndexError otherwise."""
+    rule = "C19.positions_checked_before_use"
+    fi = ctx.func("btclib.p2p.compact_blocks.reconstruct")
+    g = ctx.cfg(fi)
+    stores = [s_ for s_ in own_nodes(fi.node) if isinstance(s_, ast.Assign) and isinstance(s_.targets[0], ast.Subscript) and isinstance(s_.targets[0].slice, ast.Attribute)]
+    checks = [c for c in own_nodes(fi.node) if isinstance(c, ast.Call) and (call_name(c) in ("_assert_positions",) or (isinstance(c.func, ast.Attribute) and c.func.attr == "assert_valid"))]
+    ids = [i for c in checks for i in g.nodes_containing(c)]
+    if not stores:
+        rep.unknown(rule, "reconstruct", fi.where(), "no positional store found")
+        return
+    for s_ in stores:
+        path = g.path_avoiding(g.nodes_containing(s_), ids) if ids else ["entry"]
+        rep.ob(rule, f"reconstruct:{norm(s_.targets[0])}", path is None, fi.where(s_), "stored past the position check" if path is None else
+               f"`{norm(s_)[:60]}` stores at a position the peer stated and nothing checked: IndexError for a position past the block's count")
+    rep.floor(rule, 1)
+
+
 RULES = [
+    ("C19.lookahead_bounded", rule_lookahead_bounded),
+    ("C19.positions_checked_before_use", rule_positions_checked_before_use),
+
     ("C19.nested_validated", rule_nested_validated_),
 
     ("C19.sticky_flags", rule_sticky_flags_),
